@@ -5,8 +5,70 @@
 #include "fiber.h"
 #include "fiber_context.h"
 
+/* built three times: assembly switch + malloc stacks (the configuration of every other harness),
+ * assembly switch + mmap stacks (C19_VARIANT 1), ucontext back-end + malloc stacks (C19_VARIANT 2) */
+#ifndef C19_VARIANT
+#define C19_VARIANT 0
+#endif
+#if C19_VARIANT == 1
+const char* const H_NAME = "c19_ctx_mmap";
+#define BLOCKS_PER_CTX 0 /* stacks are mappings, not heap blocks */
+#elif C19_VARIANT == 2
+const char* const H_NAME = "c19_ctx_uctx";
+#define BLOCKS_PER_CTX 2 /* ucontext_t + stack */
+#else
 const char* const H_NAME = "c19_ctx";
+#define BLOCKS_PER_CTX 1
+#endif
 const char* const H_PROPERTY = "C19";
+
+#if C19_VARIANT == 1
+/* ledger of stack mappings: every mmap made while contexts are created must be unmapped exactly once */
+#include <sys/mman.h>
+#define MAXMAP 32
+static struct {
+  void* p;
+  size_t n;
+  int live;
+} maps[MAXMAP];
+static int nmaps, map_tracking;
+void* __real_mmap(void*, size_t, int, int, int, off_t);
+int __real_munmap(void*, size_t);
+NS void* __wrap_mmap(void* a, size_t n, int pr, int fl, int fd, off_t off) {
+  void* p = __real_mmap(a, n, pr, fl, fd, off);
+  if (map_tracking && p != MAP_FAILED && nmaps < MAXMAP) {
+    maps[nmaps].p = p;
+    maps[nmaps].n = n;
+    maps[nmaps].live = 1;
+    nmaps++;
+  }
+  return p;
+}
+NS int __wrap_munmap(void* p, size_t n) {
+  for (int i = 0; i < nmaps; i++)
+    if (maps[i].p == p) {
+      if (!maps[i].live) sim_violation("C19-stack-released-twice", "stack mapping %p unmapped twice", p);
+      if (maps[i].n != n) sim_violation("C19-stack-partial-release", "stack mapping %p of %zu bytes unmapped with length %zu", p, maps[i].n, n);
+      maps[i].live = 0;
+    }
+  return __real_munmap(p, n);
+}
+static NS int live_maps(void) {
+  int c = 0;
+  for (int i = 0; i < nmaps; i++) c += maps[i].live;
+  return c;
+}
+static NS int stack_live(void* st) {
+  for (int i = 0; i < nmaps; i++)
+    if (maps[i].p == st) return maps[i].live;
+  return 0;
+}
+#define STACK_LIVE(st) stack_live(st)
+#define STACK_GONE(st) (!stack_live(st))
+#else
+#define STACK_LIVE(st) sim_mem_is_live(st)
+#define STACK_GONE(st) sim_mem_is_freed(st)
+#endif
 
 #define MAXC 6
 #define MAXSTEPS 40
@@ -98,14 +160,14 @@ void h_run(void) {
   if (fault_mode & 1) {
     fiber_context_t tmp;
     memset(&tmp, 0, sizeof tmp);
-    sim_alloc_fail_at(1);
-    int r = fiber_context_init(&tmp, 16384, ctx_entry_tramp, NULL);
+    sim_alloc_fail_at(1 + (C19_VARIANT == 2 ? wl_pick(2) : 0)); /* ucontext back-end: fail the ucontext_t or the stack */
+    int r = C19_VARIANT == 1 ? FIBER_ERROR : fiber_context_init(&tmp, 16384, ctx_entry_tramp, NULL);
     sim_alloc_fail_at(0);
     if (r != FIBER_ERROR) sim_violation("C19-alloc-failure-ignored", "fiber_context_init succeeded although its stack allocation failed");
     if (sim_live_blocks() != live0) sim_violation("C19-alloc-failure-leak", "a failed fiber_context_init left %ld blocks allocated", (long)(sim_live_blocks() - live0));
   }
   if (fault_mode & 2) {
-    for (int k = 1; k <= 3; k++) {
+    for (int k = 1; k <= 2 + BLOCKS_PER_CTX; k++) { /* fiber, list node, then what the context itself allocates on the heap */
       sim_alloc_fail_at(k);
       fiber_t* f = fiber_create_no_sched(16384, ctx_entry_tramp, NULL);
       sim_alloc_fail_at(0);
@@ -114,6 +176,9 @@ void h_run(void) {
     }
   }
   const size_t live1 = sim_live_blocks();
+#if C19_VARIANT == 1
+  map_tracking = 1;
+#endif
   for (int i = 0; i < nctx; i++) {
     memset(&ctx[i], 0, sizeof ctx[i]);
     if (fiber_context_init(&ctx[i], stack_size[i], ctx_entry_tramp, (void*)(uintptr_t)(0xA000 + i)) != FIBER_SUCCESS)
@@ -124,7 +189,11 @@ void h_run(void) {
       if (a < b + ctx[j].ctx_stack_size && b < a + ctx[i].ctx_stack_size) sim_violation("C19-stack-not-private", "contexts %d and %d share stack memory", i, j);
     }
   }
-  if (sim_live_blocks() != live1 + (size_t)nctx) sim_violation("C19-stack-ledger", "%d contexts created but %ld blocks allocated", nctx, (long)(sim_live_blocks() - live1));
+  if (sim_live_blocks() != live1 + (size_t)nctx * BLOCKS_PER_CTX) sim_violation("C19-stack-ledger", "%d contexts created but %ld blocks allocated", nctx, (long)(sim_live_blocks() - live1));
+#if C19_VARIANT == 1
+  map_tracking = 0;
+  if (live_maps() != nctx) sim_violation("C19-stack-ledger", "%d contexts created but %d stack mappings exist", nctx, live_maps());
+#endif
   fiber_context_init_from_thread(&thr_ctx[0]);
   cur_thread = 0;
   walk(-1, &thr_ctx[0]); /* phase 1 */
@@ -135,13 +204,13 @@ void h_run(void) {
     walk(-1, &thr_ctx[0]); /* phase 3, back on the first thread */
   }
   for (int i = 0; i < nctx; i++)
-    if (!sim_mem_is_live(ctx[i].ctx_stack)) sim_violation("C19-stack-released-early", "stack of context %d is gone before fiber_context_destroy", i);
+    if (!STACK_LIVE(ctx[i].ctx_stack)) sim_violation("C19-stack-released-early", "stack of context %d is gone before fiber_context_destroy", i);
   const size_t live2 = sim_live_blocks(); /* (thread creation allocates too, so compare around the destroy calls) */
   for (int i = 0; i < nctx; i++) fiber_context_destroy(&ctx[i]);
-  if (live2 - sim_live_blocks() != (size_t)nctx)
+  if (live2 - sim_live_blocks() != (size_t)nctx * BLOCKS_PER_CTX)
     sim_violation("C19-stack-ledger", "destroying %d contexts released %ld blocks", nctx, (long)(live2 - sim_live_blocks()));
   for (int i = 0; i < nctx; i++)
-    if (!sim_mem_is_freed(ctx[i].ctx_stack)) sim_violation("C19-stack-not-released", "stack of context %d still allocated after fiber_context_destroy", i);
+    if (!STACK_GONE(ctx[i].ctx_stack)) sim_violation("C19-stack-not-released", "stack of context %d still allocated after fiber_context_destroy", i);
   sim_probe("switches", switches_done);
   sim_finish_ok();
 }
